@@ -275,6 +275,63 @@ pub fn run(ctx: &Ctx) -> i32 {
             Err(p) => ev.violate("lookup-panic", format!("Default containers: {}", p), J::s("Default containers")),
         }
     }
+    // lookups on FSTs written in history scenarios (long series of builds on one thread, builders migrating between threads)
+    {
+        let mut bad = 0;
+        for (label, kv, res) in build::history_builds(ctx.seed + 1, ctx.tier.pick(6, 32), ctx.tier.pick(1200, 5000), ctx.tier.pick(300, 3000)) {
+            ev.count("fsts-from-history-scenarios");
+            let verdict: Result<u64, String> = match res {
+                Err(e) => Err(format!("build failed: {}", e)),
+                Ok(bytes) => guard(|| -> Result<u64, String> {
+                    let f = Fst::new(&bytes[..]).map_err(|e| format!("does not open: {}", e))?;
+                    let mut n = 0u64;
+                    for (k, v) in &kv {
+                        if f.get(k).map(|o| o.value()) != Some(*v) || !f.contains_key(k) {
+                            return Err(format!("get({}) = {:?}, inserted with {}", crate::json::show_bytes(k), f.get(k).map(|o| o.value()), v));
+                        }
+                        n += 2;
+                    }
+                    // every string over the scenario alphabet up to length 3 that was NOT inserted
+                    let alpha = [b'a', b'b', b'k', b'x', b'z', b'q'];
+                    let mut probes: Vec<Vec<u8>> = vec![vec![]];
+                    let mut layer: Vec<Vec<u8>> = vec![vec![]];
+                    for _ in 0..3 {
+                        let mut next = vec![];
+                        for p in &layer {
+                            for a in alpha.iter() {
+                                let mut t = p.clone();
+                                t.push(*a);
+                                next.push(t);
+                            }
+                        }
+                        probes.extend(next.iter().cloned());
+                        layer = next;
+                    }
+                    for p in &probes {
+                        let want = kv.binary_search_by(|(x, _)| x.as_slice().cmp(p)).ok().map(|j| kv[j].1);
+                        if f.get(p).map(|o| o.value()) != want || f.contains_key(p) != want.is_some() {
+                            return Err(format!("get({}) = {:?}, model {:?}", crate::json::show_bytes(p), f.get(p).map(|o| o.value()), want));
+                        }
+                        n += 2;
+                    }
+                    Ok(n)
+                })
+                .unwrap_or_else(|p| Err(format!("lookup panicked: {}", p))),
+            };
+            match verdict {
+                Ok(n) => {
+                    ev.evaluations += n;
+                    ev.distinct_extra += n / 4;
+                }
+                Err(e) => {
+                    if bad < 3 {
+                        ev.violate("lookup-mismatch", format!("{}: {}", label, e), J::A(kv.iter().map(|(k, v)| J::A(vec![J::bytes(k), J::U(*v)])).collect()));
+                    }
+                    bad += 1;
+                }
+            }
+        }
+    }
     finish(
         ctx,
         ev,
@@ -285,6 +342,7 @@ pub fn run(ctx: &Ctx) -> i32 {
             floors: vec![
                 ("probe:hit", 1000),
                 ("probe:default-containers", 1000),
+                ("fsts-from-history-scenarios", 5000),
                 ("probe:hit:empty-key", 100),
                 ("probe:miss:empty-key", 100),
                 ("probe:miss:prefix-not-final", 1000),
